@@ -294,7 +294,8 @@ func init() {
 		}
 		arithmeticFoundations(c)
 		groupFoundations(c, true)
-		latticeRules(c) // the verification equation is evaluated through the short-vector reduction
+		ownershipRules(c) // expanded keys and verifiers keep copies, never the caller's buffers
+		latticeRules(c)   // the verification equation is evaluated through the short-vector reduction
 	}
 }
 
